@@ -355,7 +355,6 @@ func flushWithTransientReadError(e *Env, n *Node) {
 					saved[tbl] = b
 					os.WriteFile(file, buf.Bytes(), 0644)
 					e.Count("fault.flush.short-read")
-					e.Logf("short read injected into %s of %s: %d of %d content bytes", tbl, n.Name, len(all)*2/3, len(all))
 				}
 			}
 		case 2:
@@ -367,7 +366,6 @@ func flushWithTransientReadError(e *Env, n *Node) {
 				os.WriteFile(file, b, 0644)
 				delete(saved, tbl)
 				e.Count("probe.flush-retried")
-				e.Logf("flush of %s retried on %s", tbl, n.Name)
 			}
 		}
 	}
